@@ -1,4 +1,5 @@
 """C07 — race_ok: first success wins; error only when all failed, positional aggregate."""
+from ..facts import base
 from .. import families, scan, zw
 from ..families import short, ctor_fields
 from ..terms import subterms
@@ -6,8 +7,8 @@ from . import racelike, flow, common, c01, c02, c03, prims, joinlike
 
 PROPERTY = "C07"
 LEVEL = "other"
-CONFIGS_QUICK = ["std"]
-CONFIGS_THOROUGH = ["std", "alloc", "core"]
+CONFIGS_QUICK = ["std", "std-rel"]
+CONFIGS_THOROUGH = ["std", "alloc", "core", "std-rel", "alloc-rel", "core-rel"]
 EXPLANATION = (
     "Path and data-flow rules on the MIR of every race_ok poll body (tuple arities 1-12, array, Vec): (OK) on every child's "
     "Ready(Ok) edge every path returns Ready(Ok(that payload)) in the same call and reaches no further child poll; every "
@@ -65,11 +66,11 @@ def run(ctx):
                 c03.rule_latch(ctx, u)
             if u.container == "array":
                 joinlike.rule_zero(ctx, M, u, "C07.ZERO", ("Ready(Err)",))
-        if cfg != "core":
+        if base(cfg) != "core":
             with ctx.renamed({"C03.GUARD": "C07.VEC", "C03.MARK": "C07.VEC"}):
                 c03.rule_maybe_done(ctx, M)
             rule_take(ctx, M)
-        nv = 0 if cfg == "core" else 1
+        nv = 0 if base(cfg) == "core" else 1
         ctx.floor("C07.OK", cfg, 78 + 1 + 12 + 1)
         ctx.floor("C07.SLOT", cfg, 78 + 1 + 12 + 1)
         ctx.floor("C07.ALL", cfg, 2 * (12 + 1) + 78 + 1)
